@@ -6,8 +6,8 @@
 #include "world.h"
 #include "peek.h"
 
-enum { D_NONE = 0, D_UNKNOWN_CA, D_EXPIRED, D_NOT_YET_VALID, D_NAME, D_FORGED_CERT, D_POP_WRONG_SIG, D_POP_OTHER_DATA, D_N };
-static const char *D_NAME_S[] = { "none", "unknown_ca", "expired", "not_yet_valid", "name_mismatch", "forged_cert_sig", "pop_wrong_signature", "pop_signature_over_other_data" };
+enum { D_NONE = 0, D_UNKNOWN_CA, D_EXPIRED, D_NOT_YET_VALID, D_NAME, D_FORGED_CERT, D_POP_WRONG_SIG, D_POP_OTHER_DATA, D_POP_OMITTED, D_N };
+static const char *D_NAME_S[] = { "none", "unknown_ca", "expired", "not_yet_valid", "name_mismatch", "forged_cert_sig", "pop_wrong_signature", "pop_signature_over_other_data", "pop_message_omitted" };
 static const char *CB_S[] = { "none", "strict", "allow_all", "allow_one" };
 
 struct KexChoice { int ver; uint16_t suite; int kind; bool has_sig_pop; };   // has_sig_pop: the server signs something (SKE / CertificateVerify)
@@ -21,7 +21,7 @@ static const KexChoice KEX[] = {
 };
 static const int NKEX = sizeof KEX / sizeof KEX[0];
 
-static inline bool is_pop(int d) { return d == D_POP_WRONG_SIG || d == D_POP_OTHER_DATA; }
+static inline bool is_pop(int d) { return d == D_POP_WRONG_SIG || d == D_POP_OTHER_DATA || d == D_POP_OMITTED; }
 static Plan make_plan(int kex, int verifier_is_server, int defect, int cb, int cb_alert, uint64_t seed) {
     Plan p; p.seed = seed;
     p.cfg["kex"] = kex; p.cfg["vsrv"] = verifier_is_server; p.cfg["defect"] = defect; p.cfg["cb"] = cb; p.cfg["cb_alert"] = cb_alert;
@@ -114,11 +114,16 @@ static RunResult c04_exec(const Plan &p) {
             if (!res.harness_error && w.connect()) {
                 // allow_one on the server side uses the same alert parameter
                 if (vsrv) { w.srv->cfg.cb_allow_alert = (int) p.get("cb_alert"); }
-                if (is_pop(defect)) { vsim_sign_mode(defect == D_POP_OTHER_DATA ? 1 : 0); vsim_sign_corrupt(vsrv ? NODE_CLIENT : NODE_SERVER, 8); }
+                if (defect == D_POP_OMITTED) {
+                    // the peer (real MatrixSSL through the guarded skip hook, so both transcripts agree) sends its certificate but never the message
+                    // that proves possession of the key: CertificateVerify (TLS 1.3 both roles, TLS <= 1.2 client) / ServerKeyExchange (TLS <= 1.2 server)
+                    vsim_hs_skip(vsrv ? NODE_CLIENT : NODE_SERVER, (K.ver == 2 || vsrv) ? 15 : 12, 1);
+                } else if (is_pop(defect)) { vsim_sign_mode(defect == D_POP_OTHER_DATA ? 1 : 0); vsim_sign_corrupt(vsrv ? NODE_CLIENT : NODE_SERVER, 8); }
                 w.handshake();
                 MxEndpoint &ver = vsrv ? *w.srv : *w.cli;
                 bool completed = ver.is_complete();
-                uint64_t corrupted = vsim_sign_corrupted();
+                uint64_t corrupted = defect == D_POP_OMITTED ? vsim_hs_skipped() : vsim_sign_corrupted();
+                vsim_hs_skip(-1, -1, 0);
                 vsim_sign_corrupt(-1, 0); vsim_sign_mode(0);
                 std::string ctx = std::string(ver_name(pc.version)) + "," + (vsrv ? "server" : "client") + "," + D_NAME_S[defect] + "," + CB_S[cb];
                 res.count(std::string("outcome.") + D_NAME_S[defect] + (completed ? ".completed" : ".refused"));
@@ -130,7 +135,7 @@ static RunResult c04_exec(const Plan &p) {
                     if (!completed) { res.harness_error = true; res.detail = "control failed: no defect but the handshake did not complete (" + ctx + ", suite " + suite_name(K.suite) + ") cli_err=" + std::to_string(w.cli->first_error) + " srv_err=" + std::to_string(w.srv->first_error); }
                 } else if (is_pop(defect)) {
                     if (corrupted == 0) { res.count("fault_not_fired"); }
-                    else if (completed) { res.violate("completed_with_defect", ctx, std::string(defect == D_POP_OTHER_DATA ? "the peer's proof-of-possession signature was a genuine signature over OTHER data (" : "the peer's proof-of-possession signature was corrupted (") + std::to_string(corrupted) + " signature(s)) and the handshake still completed"); }
+                    else if (completed) { res.violate("completed_with_defect", ctx, std::string(defect == D_POP_OMITTED ? "the peer never sent its proof-of-possession message (omitted " : defect == D_POP_OTHER_DATA ? "the peer's proof-of-possession signature was a genuine signature over OTHER data (" : "the peer's proof-of-possession signature was corrupted (") + std::to_string(corrupted) + " signature(s)) and the handshake still completed"); }
                 } else if (completed) {
                     bool overridden = cb != CB_NONE && cb_saw_failure && accepted_by_cb;
                     if (!overridden) {
